@@ -1232,6 +1232,15 @@ impl<'a> GeneratorState<'a> {
     fn generate_csleep_statement(&mut self, cycles: i32, pos: usize) -> Result<(), Error> {
         // Timing instructions are protected, and thus cannot be optimized out.
         // DEC and PLA modify the N and Z flags
+        if matches!(cycles, 3 | 5 | 9 | 10) {
+            // These counts rely on the zero page forms of STA and DEC
+            let v = self.variable_or_error("DUMMY", pos)?;
+            if v.memory != VariableMemory::Zeropage {
+                return Err(self
+                    .compiler_state
+                    .syntax_error("csleep needs DUMMY to be in zero page", pos));
+            }
+        }
         self.protected = true;
         self.flags = FlagsState::Unknown;
         match cycles {
